@@ -20,7 +20,7 @@ MUT = {
                       "                null=True, null_val=False, max_defi=max_def, prev_i=0\n            )\n            idx[0] += data_header2.num_rows\n        elif data_header2.num_nulls:"),
  "M11_v2_plain_flat": ("core.py", "    if max_rep and data_header2.encoding == parquet_thrift.Encoding.PLAIN:", "    if False and data_header2.encoding == parquet_thrift.Encoding.PLAIN:"),
  "M12_v2_level_len": ("core.py", "encoding.read_rle_bit_packed_hybrid(io_obj, bit_width, data_header2.repetition_levels_byte_length,", "encoding.read_rle_bit_packed_hybrid(io_obj, bit_width, data_header2.num_values,"),
- "M13_d_flag": ("core.py", "                assign, defi, rep, val, dic, d,\n", "                assign, defi, rep, val, dic, False,\n"),
+ "M13_d_flag": ("core.py", "                assign, ldefi, rep, val, dic, d,\n", "                assign, ldefi, rep, val, dic, False,\n"),
  "M14_listlike_drop_repeated_check": ("schema.py", "    if se2.repetition_type != parquet_thrift.FieldRepetitionType.REPEATED:\n        return False\n    se3 = list(se2[\"children\"].values())[0]", "    se3 = list(se2[\"children\"].values())[0]"),
  "M15_c_de_ge_null": ("cencoding.c", "    __pyx_t_1 = (__pyx_v_de > __pyx_v_null);", "    __pyx_t_1 = (__pyx_v_de >= __pyx_v_null);"),
  "M16_name_path": ("core.py", "            name = \".\".join(column.meta_data.path_in_schema[:-2])", "            name = \".\".join(column.meta_data.path_in_schema[:-1])"),
